@@ -44,6 +44,18 @@ fn check_size(refm: &RefModel, eng: &str, codec: &str, k: usize, r: usize, bytes
         g.check_restored(&og, &m).map_err(|e| (format!("restored == missing originals, each of {bytes} bytes ({name})"), e))?;
         n += 1;
     }
+    // mid-size configurations: every single missing original, with all recovery shards given (full bitmap
+    // words around the missing one) and with one recovery shard only
+    if (32..=256).contains(&k) {
+        for e in 0..k {
+            let og: Vec<usize> = (0..k).filter(|i| *i != e).collect();
+            for rg in [(0..r).collect::<Vec<usize>>(), vec![e % r]] {
+                let m = g.decode(&og, &rg, None).map_err(|e2| (format!("decode Ok (original {e} missing, recovery {})", fmt_ranges(&rg)), e2))?;
+                g.check_restored(&og, &m).map_err(|e2| (format!("restored == original {e} of {bytes} bytes (recovery given: {})", fmt_ranges(&rg)), e2))?;
+                n += 1;
+            }
+        }
+    }
     Ok(n)
 }
 
@@ -105,6 +117,20 @@ pub fn run(ctx: &Ctx, rep: &mut Report) {
             }
         }
     }
+    // mid-size configurations with short final blocks: every single missing original
+    let mid: Vec<(usize, usize)> = if ctx.thorough() { vec![(40, 4), (40, 16), (70, 8), (40, 3), (33, 40), (100, 1), (64, 2), (40, 32), (129, 16)] } else { vec![(40, 4), (40, 16), (70, 8), (40, 3), (33, 40), (100, 1)] };
+    for (mi, &(k, r)) in mid.iter().enumerate() {
+        for (bi, b) in [34usize, 130, 2].into_iter().enumerate() {
+            let fast = engines_fast();
+            let eng = fast[(mi + bi) % fast.len()];
+            for codec in ["high", "low"] {
+                if spec_supports(Kind::parse(codec), k, r) {
+                    cases.push(Kv::new().with("eng", eng).with("codec", codec).with("k", k).with("r", r).with("bytes", b).with("soil", soil).with("seed", seed));
+                }
+            }
+        }
+    }
+    rep.bound("mid_cfg", J::s(format!("{mid:?} x {{high,low}} with shard sizes 34, 130, 2: additionally every single missing original (all recovery shards given / one given)")));
     // configurations on the edge of the envelope (work area of exactly 65536 positions) with short final blocks
     let edge: Vec<(usize, usize, &str)> = vec![(65532, 4, "high"), (65528, 8, "def"), (4, 65532, "low"), (8, 65528, "def"), (65535, 1, "def"), (1, 65535, "def")];
     for (ei, &(k, r, codec)) in edge.iter().enumerate() {
